@@ -95,7 +95,7 @@ pub fn generate(out: &mut Out, prop: &str, thorough: bool, seed: u64) {
         _ => panic!("no generator for {prop}"),
     }
     // breadth for the correspondence: random histories over all dimensions at once
-    let n = if thorough { 20_000 } else { 1_500 };
+    let n = if thorough { 40_000 } else { 6_000 };
     match prop {
         "C01" | "C02" | "C09" => {
             universal::gen_cli_histories(out, &mut rng, n / 2);
